@@ -1074,7 +1074,7 @@ func (x *expander) substitutable(e ast.Expr) bool {
 		return true
 	case *ast.Ident:
 		switch o := x.info.Uses[t].(type) {
-		case *types.Nil, *types.Const:
+		case *types.Nil, *types.Const, *types.Func:
 			return true
 		case *types.Var:
 			return !o.IsField()
@@ -1091,7 +1091,15 @@ func (x *expander) substitutable(e ast.Expr) bool {
 		return x.substitutable(t.X)
 	case *ast.SelectorExpr:
 		s := x.info.Selections[t]
-		if s == nil || s.Kind() != types.FieldVal || s.Indirect() {
+		if s == nil {
+			// pkg.Name: a function or constant of another package never changes
+			switch x.info.Uses[t.Sel].(type) {
+			case *types.Func, *types.Const:
+				return true
+			}
+			return false
+		}
+		if s.Kind() != types.FieldVal || s.Indirect() {
 			return false
 		}
 		if _, isPtr := x.info.TypeOf(t.X).Underlying().(*types.Pointer); isPtr {
